@@ -210,6 +210,9 @@ pub fn unmarshal_signature(buf: &[u8]) -> UnmarshalResult<(usize, &str)> {
         return Err(UnmarshalError::NotEnoughBytes);
     }
     let sig_buf = &buf[1..][..len];
+    if buf[len + 1] != b'\0' {
+        return Err(UnmarshalError::MissingNulTerminator);
+    }
     let string =
         std::str::from_utf8(sig_buf).map_err(|_| crate::params::validation::Error::InvalidUtf8)?;
     Ok((len + 2, string))
@@ -229,6 +232,9 @@ pub fn unmarshal_str<'r, 'a: 'r>(
         return Err(UnmarshalError::NotEnoughBytes);
     }
     let str_buf = &buf[4..];
+    if str_buf[len] != b'\0' {
+        return Err(UnmarshalError::MissingNulTerminator);
+    }
     let string = std::str::from_utf8(&str_buf[..len])
         .map_err(|_| crate::params::validation::Error::InvalidUtf8)?;
     if string.contains('\0') {
